@@ -72,13 +72,23 @@ Print Assumptions C07_no_delivery_outside_tree.
 
 (* the completing component c becomes the root of exactly its subtree; links inside the subtree are kept,
    nothing outside changes *)
-Theorem C07_detach_connected : forall n h s c s', run n h init = Ok s -> complete n c s = Ok s' ->
+Theorem C07_detach_connected : forall n h s c s', run n h init = Ok s -> pend s c = true -> complete n c s = Ok s' ->
   par s' c = c /\ pend s' c = false /\ kid s' (par s c) c = false /\
   (forall x, desc (kid s) c x ->
      rt s' x = c /\ desc (kid s') c x /\ (x <> c -> par s' x = par s x /\ kid s' (par s x) x = kid s (par s x) x)) /\
   (forall x, ~ desc (kid s) c x -> rt s' x = rt s x /\ par s' x = par s x).
 Proof. exact run_detach_connected. Qed.
 Print Assumptions C07_detach_connected.
+
+(* ... and every member d of the detached subtree whose own unregistration is still pending has its
+   prepare_unregister(d) queued at its new root c: its completion event may be with the root that was left,
+   where it can no longer reach d, but the unregistration has been started again where d is now
+   (fixes/C07_nested_unregister_completes.patch) *)
+Theorem C07_detach_restarts : forall n h s c s', run n h init = Ok s -> pend s c = true -> complete n c s = Ok s' ->
+  forall d, d <> c -> desc (kid s') c d -> pend s' d = true ->
+  rt s' d = c /\ In (PrepUnreg d) (q s' (rt s' d)).
+Proof. exact run_detach_restarts. Qed.
+Print Assumptions C07_detach_restarts.
 
 (* register moves c with its whole subtree under the root of p *)
 Theorem C07_move_connected : forall n h s c p s', run n h init = Ok s -> register n c p s = Ok s' ->
@@ -218,14 +228,19 @@ Example C07_ex_flushing_root :
   run 3 [OReg 1 0; OTick 0 [[(Registered 1 0, [(1, [AReg 0 2])])]]] init = PreViolated.
 Proof. vm_compute. reflexivity. Qed.
 
-(* observed on the real code and reproduced here (outside the statement, no alarm): parent 1 and then its
-   child 2 are unregistered before any tick; 1 completes first, the completion event of 2 is dispatched by
-   the old root, which no longer contains 2; 2 stays pending for ever - and the forest is still consistent *)
-Example C07_ex_pending_for_ever :
+(* parent 1 and then its child 2 are unregistered before any tick; 1 completes first and takes 2 along; the
+   completion event of 2 is dispatched by the old root, which no longer contains 2.  With
+   fixes/C07_nested_unregister_completes.patch the detaching parent starts the unregistration of 2 again in
+   the new tree (root 1), where it completes as soon as that root is ticked *)
+Example C07_ex_nested_unregister_completes :
   match run 3 [OReg 1 0; OReg 2 1; OUnreg 1; OUnreg 2;
                OTick 0 [quiet [Registered 1 0; Registered 2 1; PrepUnreg 1; PrepUnreg 2];
                         quiet [PrepDone 1; PrepDone 2]; quiet [Unregistered 1 0]; []]] init with
-  | Ok s => (pend s 2, par s 2, rt s 2, par s 1, q s 0, q s 1) = (true, 1, 1, 1, [], [])
+  | Ok s => match ticks 3 1 [quiet [PrepUnreg 2]; quiet [PrepDone 2]; quiet [Unregistered 2 1]] s with
+            | Ok s' => (pend s 2, par s 2, rt s 2, q s 0, q s 1, pend s' 2, par s' 2, rt s' 2, unregd s')
+                       = (true, 1, 1, [], [PrepUnreg 2], false, 2, 2, [(2, 1); (1, 0)])
+            | _ => False
+            end
   | _ => False
   end.
 Proof. vm_compute. reflexivity. Qed.
